@@ -59,7 +59,12 @@ pub fn apply<Ty: EdgeType, Ix: IndexType>(g: &mut Gr<Ty, Ix>, o: &GOp) -> String
     match o.0.as_str() {
         "add_node" => line("idx", &[g.add_node(a[0] as u32).index() as i64]),
         "try_add_node" => match g.try_add_node(a[0] as u32) { Ok(i) => line("idx", &[i.index() as i64]), Err(e) => gerr(e) },
-        "add_edge" => line("idx", &[g.add_edge(ni(a[0]), ni(a[1]), a[2] as u32).index() as i64]),
+        "add_edge" => {
+            // the same insertion through the generic data::Build interface, on a clone: same index, same graph
+            let twin = catch_unwind(AssertUnwindSafe(|| { let mut c = g.clone(); let r = petgraph::data::Build::add_edge(&mut c, ni(a[0]), ni(a[1]), a[2] as u32); (r.map(|e| e.index()), battery(&c)) }));
+            let i = g.add_edge(ni(a[0]), ni(a[1]), a[2] as u32).index();
+            match twin { Ok((r, b)) if r != Some(i) || b != battery(g) => line("idx-build-twin-mismatch", &[i as i64]), _ => line("idx", &[i as i64]) }
+        }
         "try_add_edge" => match g.try_add_edge(ni(a[0]), ni(a[1]), a[2] as u32) { Ok(i) => line("idx", &[i.index() as i64]), Err(e) => gerr(e) },
         "update_edge" => line("idx", &[g.update_edge(ni(a[0]), ni(a[1]), a[2] as u32).index() as i64]),
         "try_update_edge" => match g.try_update_edge(ni(a[0]), ni(a[1]), a[2] as u32) { Ok(i) => line("idx", &[i.index() as i64]), Err(e) => gerr(e) },
